@@ -2,8 +2,10 @@ package compiler
 
 import (
 	"fmt"
+	"sort"
 
 	"github.com/grafana/cog/internal/ast"
+	"github.com/grafana/cog/internal/tools"
 )
 
 var _ Pass = (*DisjunctionInferMapping)(nil)
@@ -120,7 +122,11 @@ func (pass *DisjunctionInferMapping) inferDiscriminatorField(schema *ast.Schema,
 		allTypes = append(allTypes, typeName)
 	}
 
-	for candidateFieldName := range candidates[someType] {
+	// sorted: when several fields qualify, the choice must not depend on map iteration order
+	candidateFieldNames := tools.Keys(candidates[someType])
+	sort.Strings(candidateFieldNames)
+
+	for _, candidateFieldName := range candidateFieldNames {
 		existsInAllBranches := true
 		for _, branchTypeName := range allTypes {
 			if _, ok := candidates[branchTypeName][candidateFieldName]; !ok {
